@@ -9,7 +9,7 @@ import modelrun
 from ref import oracle
 from props import c01
 
-GEN_FILES = []
+GEN_FILES = ["GenFormulas.v"]
 EXTRA_TARGETS = ["Extract/ExtractHasher.vo"]
 AREAS = ["hasher"]
 RULE = ("model tie: extracted Coq model of Hasher with align=true and of the entry list (v1_entries) vs the real "
